@@ -377,6 +377,12 @@ func writeEvidence(v *Verifier, vdir, prop, tier string, seed int, agg map[strin
 		"built-in models (assumed semantics): bytes.Buffer / gxbytes.Buffer as a byte string that only grows by writes; fmt.Sprintf(\"%v\", x) as an uninterpreted function of x (a string prints as itself); errors.Is / errors.New / pkg/errors wrappers; sync.Once, sync.Map as sequential objects; context.WithValue; reflect.ValueOf / Kind / Int / Uint / Float / Interface / DeepEqual as far as datasource.DeepEqual uses them (Kind is a function of the dynamic type, DeepEqual on two strings is string equality, otherwise uninterpreted); the used models are listed below",
 		"a Go map range hands out every key present when the range started exactly once, in an arbitrary order (ghost visited-set); string keys are indexed by an injective function",
 	}
+	for k, seen := range v.calledAsked {
+		if !seen {
+			v.notes["vacuity audit: a clause names the call "+k+" and no path of that function records a call of that name"] = true
+			fmt.Fprintf(os.Stderr, "VACUITY-AUDIT %s\n", k)
+		}
+	}
 	for _, n := range sortedKeys(v.notes) {
 		assumptions = append(assumptions, "note: "+n)
 	}
